@@ -1,11 +1,3 @@
-def _has_join_on_uncatchable(case, record, expected_text):
-    """F20 recogniser: a native frame returned/panicked errors.Join(err, x) where err is an uncatchable error.
-    Narrow: the chain must contain a returnjoin handler, the innermost event must be an uncatchable one, and the
-    model itself (which transcribes isUncatchableException) predicts the observation — so this predicate is only
-    ever consulted for corpus documentation, never to excuse a model/implementation disagreement."""
-    return False
-
-
 CFG = {
     "id": "C14",
     "harness": "c14",
@@ -45,7 +37,7 @@ CFG = {
         "iterator return() / generator frames during uncatchable unwinding belong to C08/C03 (F12, F16), not to this model",
         "the implementation is tied to the model only on the generated chains (correspondence), not by proof",
     ],
-    "predicates": {"C14.join_hides_uncatchable": _has_join_on_uncatchable},
+    "predicates": {},
     "manifest": {
         "text": ("proof: over a Gallina transcription of goja's panic-payload classification at every Go/JS boundary, for call chains "
                  "of ANY length (induction on the chain) and every frame convention: a thrown value is received as the same value by "
